@@ -23,7 +23,8 @@ import syntax_common as S
 ID = "C05"
 LEVEL = "proof"
 TRANSLATORS = ["syntax", "pycschema"]
-MODEL_TARGETS = ["theories/Syntax.vo"]
+MODEL_TARGETS = ["theories/Syntax.vo", "theories/FileIO.vo"]
+COQ_TARGETS = ["theories/FileIO.vo"]      # imported by the shared correspondence header (syntax_common.COQ_HEADER)
 EXPLANATION = ("Theorems over all trees about the executable model of the gate (Coverage) and of the dispatch of Analysis.compute_relation: "
                "on the unchanged tree the full-strength statements are refuted by vm_compute witnesses that replay on the real code; "
                "the model is tied to /repo by generated dispatch tables and correspondence of omit paths and compute_relation call sequences.")
